@@ -38,6 +38,12 @@ def run(ck):
               what="gridDiskDistancesUnsafe / gridRingUnsafe transcribed (spiral walk with rotation bookkeeping, pentagon bail-outs, closure "
                    "test): from every origin, either an error or exactly the BFS disk in ring order with true distances / exactly the BFS "
                    "ring; " + what)
+    for cfg, what in (("MC_GridUnsafeWrap_r0_ok.cfg", "r=0, k=5..12"), ("MC_GridUnsafeWrap_r1_ok.cfg", "r=1, k=5..11")):
+        ck.mc("MC_GridUnsafeWrap", cfg, workers=vlib.NCPU, xmx="12g", timeout=3400,
+              what="hollow rings that run round the globe, every origin: error or exactly the BFS ring; " + what)
+    # the design-level counterexample of the known finding (rings enclosing >= 6 pentagons): reported as KNOWN-FINDING while it lasts
+    ck.mc("MC_GridUnsafeWrap", "MC_GridUnsafeWrap_r1.cfg", workers=vlib.NCPU, xmx="12g", timeout=3400,
+          what="hollow rings r=1, k=12 (encloses >= 6 pentagons): expected to violate RingClaim on the pinned design (known finding)")
     # 2. model -> code: every cell of the model's graph (r <= 2) as origin of all nine functions
     drv = vlib.build_driver("drv_grid", "dbg")
     wf = os.path.join(ck.tdir, "cells.txt")
@@ -58,6 +64,14 @@ def run(ck):
         raise vlib.InfraError("driver failed rc=%s %s" % (d["rc"], d["err"][-1500:]))
     ck.trace("strata", "Trace_Grid", "Trace.cfg", t2, nchunks=16,
              what="pentagon k-disks, icosahedron-edge cells and random cells at r=3..15, k<=5; k up to 60 at r<=1")
+    t3 = os.path.join(ck.tdir, "wrap.ndjson")
+    d = vlib.run_driver(drv, ["wrap", ck.tier, ck.seed, t3])
+    if d["rc"] != 0:
+        raise vlib.InfraError("driver failed rc=%s %s" % (d["rc"], d["err"][-1500:]))
+    ck.trace("ring-wrap", "Trace_Grid", "Trace.cfg", t3, nchunks=16, balance=True, max_rejections=100000, timeout=3400,
+             what="gridRingUnsafe with k = 4..9 at r=0 and k = 9..14 at r=1 from (quick: a twelfth of) all origins: rings that enclose "
+                  "several pentagons; each event carries the number of pentagons strictly inside the ring (wrapped = 6 or more); the "
+                  "rejections with wrapped = 1 are the known finding, any other rejection is a violation")
     ck.ev.assumptions += ["TLC 1.8 / JVM", "hand transcription of h3NeighborRotations in H3Grid.tla (checked: whole-grid "
                           "invariants and counts; bound to the code by every validated event)",
                           "frozen design tables H3Tables.tla", "ndjson encodings"]
